@@ -43,12 +43,16 @@ theorem equal_refines (cx : Btclib.Ctx) (sc : Bytes) (stack alt : List Bytes) :
     rw [beq_comm_bytes a b]; rfl
 
 /-! numbers -/
-theorem num_eq (cx : Btclib.Ctx) (sc : Bytes) (v : Bytes) (m : Nat) :
+theorem num_eq (cx : Btclib.Ctx) (sc : Bytes) (v : Bytes) (m : Nat) (hm : m ≤ 8) :
     Btclib.num cx v m = (Core.num (coreCx cx sc) v m).toOption := by
   unfold Btclib.num Core.num Btclib.minimaldata
-  rw [toNum_eq_scriptNum]
+  rw [toNum_eq_scriptNum _ _ _ hm]
   simp only [coreCx]
   cases Core.scriptNum v (Core.has cx.flags Core.FLAG_MINIMALDATA) m <;> rfl
+
+theorem num_eq4 (cx : Btclib.Ctx) (sc : Bytes) (v : Bytes) :
+    Btclib.num cx v Gen.Script.MAX_NUM_SIZE = (Core.num (coreCx cx sc) v Core.DEFAULT_MAX_NUM_SIZE).toOption :=
+  num_eq cx sc v 4 (by decide)
 
 theorem enc_eq (i : Int) : Btclib.enc i = Core.numBytes i := encodeNumRaw_eq_serialize i
 
@@ -62,7 +66,7 @@ theorem un_refines (cx : Btclib.Ctx) (sc : Bytes) (stack alt : List Bytes) (f : 
   rcases stack with _ | ⟨a, r⟩
   · rfl
   · have e : Gen.Script.MAX_NUM_SIZE = Core.DEFAULT_MAX_NUM_SIZE := rfl
-    simp only [Btclib.un, Core.unaryNum, num_eq cx sc, e]
+    simp only [Btclib.un, Core.unaryNum, num_eq4 cx sc]
     cases h : Core.num (coreCx cx sc) a Core.DEFAULT_MAX_NUM_SIZE <;>
       simp [Except.toOption, btRes, coreRes, Except.map, bind, Except.bind, pure, Except.pure, hfg]
 
@@ -74,7 +78,7 @@ theorem bin_refines (cx : Btclib.Ctx) (sc : Bytes) (stack alt : List Bytes) (f :
   · rfl
   · rfl
   · have e : Gen.Script.MAX_NUM_SIZE = Core.DEFAULT_MAX_NUM_SIZE := rfl
-    simp only [Btclib.bin, Core.binaryNum, num_eq cx sc, e]
+    simp only [Btclib.bin, Core.binaryNum, num_eq4 cx sc]
     cases h1 : Core.num (coreCx cx sc) a Core.DEFAULT_MAX_NUM_SIZE <;>
       cases h2 : Core.num (coreCx cx sc) b Core.DEFAULT_MAX_NUM_SIZE <;>
       simp [Except.toOption, btRes, coreRes, Except.map, bind, Except.bind, Option.bind, pure, Except.pure, hfg]
@@ -160,7 +164,7 @@ theorem within_refines (cx : Btclib.Ctx) (sc : Bytes) (stack alt : List Bytes) :
         let mn ← Core.num (coreCx cx sc) b
         let mx ← Core.num (coreCx cx sc) c
         pure (Core.ofBool (decide (mn ≤ x) && decide (x < mx)) :: r) : Core.R (List Bytes)).map fun s => (s, alt)))
-    simp only [num_eq cx sc, e]
+    simp only [num_eq4 cx sc]
     cases h1 : Core.num (coreCx cx sc) a Core.DEFAULT_MAX_NUM_SIZE <;>
       cases h2 : Core.num (coreCx cx sc) b Core.DEFAULT_MAX_NUM_SIZE <;>
       cases h3 : Core.num (coreCx cx sc) c Core.DEFAULT_MAX_NUM_SIZE <;>
@@ -221,5 +225,98 @@ theorem expansion_refines (cx : Btclib.Ctx) (sc : Bytes) (stack alt : List Bytes
           rw [toBool_eq_castToBool]
           simp only [coreRes, Except.map, bind, Except.bind, pure, Except.pure, throw, throwThe, MonadExceptOf.throw]
           split <;> rfl
+
+/-! ### the expansion at loop level -/
+section
+open Btclib
+
+/-- three passes through the loop -/
+def iter3 (cx : Btclib.Ctx) (st : St) : Option Next :=
+  match iter cx st with
+  | some (.more a) =>
+    match iter cx a with
+    | some (.more b) => iter cx b
+    | x => x
+  | x => x
+
+theorem count_spec (c : Int) :
+    (Gen.Script.script_op_count c 1).toOption = if c + 1 > 201 then none else some (c + 1) := by
+  unfold Gen.Script.script_op_count
+  simp only [Gen.Script.MAX_OPS_PER_SCRIPT, bind, Except.bind, pure, Except.pure]
+  by_cases h : c + 1 > 201
+  · simp [h, Except.toOption, throw, throwThe, MonadExceptOf.throw]
+  · have h' : ¬ (201 < c + 1) := by omega
+    simp [h, h', Except.toOption]
+
+/-- one pass on an executing branch over one of the three op codes of the EQUALVERIFY expansion -/
+theorem iter_operation (cx : Btclib.Ctx) (t : Nat) (ht : t = 0x88 ∨ t = 0x87 ∨ t = 0x69)
+    (stack alt : List Bytes) (cond : List Bool) (cnt idx : Int) (rest : Bytes)
+    (hexec : cond.all id = true) (hsize : stack.length + alt.length ≤ 1000) :
+    iter cx { stack := stack, alt := alt, cond := cond, opCodeNum := cnt, scriptIndex := idx, s := UInt8.ofNat t :: rest } =
+      if cnt + 1 > 201 then none
+      else match operation cx t stack alt with
+        | none => none
+        | some (.done s a) => some (.more { stack := s, alt := a, cond := cond, opCodeNum := cnt + 1, scriptIndex := idx + 1, s := rest })
+        | some (.expand s a r) =>
+          some (.more { stack := s, alt := a, cond := cond, opCodeNum := cnt + 1 - r.length, scriptIndex := idx + 1 - r.length,
+                        s := r.map UInt8.ofNat ++ rest }) := by
+  have hsz : ¬ (1000 < stack.length + alt.length) := by omega
+  rcases ht with rfl | rfl | rfl <;>
+    (simp only [iter, Gen.Script.N_MAX_STACK_SIZE, gt_iff_lt, hsz, if_false, hexec]
+     by_cases hc : cnt + 1 > 201
+     · simp [count_spec, hc, kind]
+     · simp [count_spec, hc, kind, Gen.Script.DISABLED_OP_CODES, Gen.Script.EVALUATED_WHEN_UNEXECUTED_LO,
+         Gen.Script.EVALUATED_WHEN_UNEXECUTED_HI]
+       cases operation cx _ stack alt with
+       | none => rfl
+       | some r => cases r <;> rfl)
+
+
+/-- T3, the expansion trick with its bookkeeping: OP_EQUALVERIFY runs as three passes of the loop (the expansion, OP_EQUAL,
+    OP_VERIFY); `script_index` and `op_code_num` are wound back by two and counted up again, and the three passes together
+    leave exactly: stacks as the fused pair leaves them, ONE op code counted (refused iff the count passes 201), the index
+    advanced by ONE, the stream past the op code. -/
+theorem equalverify_windback (cx : Btclib.Ctx) (stack alt : List Bytes) (cond : List Bool) (cnt idx : Int)
+    (rest : Bytes) (hexec : cond.all id = true) (hsize : stack.length + alt.length ≤ 1000) :
+    iter3 cx { stack := stack, alt := alt, cond := cond, opCodeNum := cnt, scriptIndex := idx, s := UInt8.ofNat 0x88 :: rest } =
+      (if cnt + 1 > 201 then none
+       else match (btRes (operation cx 0x87 stack alt)).bind fun p => btRes (operation cx 0x69 p.1 p.2) with
+         | some (s, a) => some (.more { stack := s, alt := a, cond := cond, opCodeNum := cnt + 1, scriptIndex := idx + 1, s := rest })
+         | none => none) := by
+  unfold iter3
+  rw [iter_operation cx 0x88 (Or.inl rfl) stack alt cond cnt idx rest hexec hsize]
+  by_cases hc : cnt + 1 > 201
+  · simp [hc]
+  · simp only [hc, if_false]
+    have e88 : operation cx 0x88 stack alt = some (.expand stack alt [0x87, 0x69]) := rfl
+    simp only [e88, List.map_cons, List.map_nil, List.cons_append, List.nil_append, List.length_cons, List.length_nil]
+    rw [iter_operation cx 0x87 (Or.inr (Or.inl rfl)) stack alt cond _ _ _ hexec hsize]
+    have hc2 : ¬ (cnt + 1 - ((0 + 1 + 1 : Nat) : Int) + 1 > 201) := by omega
+    simp only [hc2, if_false]
+    rcases stack with _ | ⟨a, _ | ⟨b, r⟩⟩
+    · rfl
+    · rfl
+    · have e87 : operation cx 0x87 (a :: b :: r) alt = some (.done (boolBytes (a == b) :: r) alt) := rfl
+      simp only [e87, btRes, Option.bind_some]
+      have hs3 : (boolBytes (a == b) :: r).length + alt.length ≤ 1000 := by
+        simp only [List.length_cons] at hsize ⊢; omega
+      rw [iter_operation cx 0x69 (Or.inr (Or.inr rfl)) _ alt cond _ _ rest hexec hs3]
+      have hc3 : ¬ (cnt + 1 - ((0 + 1 + 1 : Nat) : Int) + 1 + 1 > 201) := by omega
+      simp only [hc3, if_false]
+      cases h69 : operation cx 0x69 (boolBytes (a == b) :: r) alt with
+      | none => rfl
+      | some res =>
+        cases res with
+        | done s2 a2 =>
+          simp only [btRes]
+          congr 3 <;> omega
+        | expand s2 a2 r2 =>
+          exfalso
+          have : operation cx 0x69 (boolBytes (a == b) :: r) alt
+              = if toBool (boolBytes (a == b)) then some (.done r alt) else none := rfl
+          rw [this] at h69; split at h69 <;> cases h69
+
+
+end
 
 end Btc.Script.Refine
